@@ -46,7 +46,9 @@ ASSUMPTIONS = [
     "header size' (>= 1024), the size line is what locates the samples, and libsndfile's NIST "
     "reader decodes the reference writer's 1025/1500/2047/2049/4000-byte headers identically "
     "(selftest); a size smaller than the layout's own fields is not a header and is skipped",
-    "streams: read(n) returns n bytes unless at end of file (io.BytesIO in the other sub-checks; file_objects: "
+    "short_reads: raw streams whose read(n) may return fewer than n bytes before the end (deterministic "
+    "io.RawIOBase wrappers, caps per call); the header is delivered in reads the reader does not have to retry",
+    "other sub-checks - streams: read(n) returns n bytes unless at end of file (io.BytesIO in the other sub-checks; file_objects: "
     "the 21 kinds of mc/refs/sphere.py STREAM_KINDS, all of which have that read(); a pipe is read through a "
     "BufferedReader, which blocks until n bytes or end of file)",
     "sample_count = 0 and PCM with a requested 1-byte dtype are outside the property and skipped",
@@ -116,7 +118,7 @@ def _read(data, access, dtype, tmpdir):
                 with open(p, "wb") as f:
                     f.write(data)
                 out = util.read_signal(p, dtype=dtype)
-            elif access.startswith("obj:") and access[4:] in sph.STREAM_KINDS:
+            elif access.startswith("obj:") and access[4:] in sph.STREAM_KINDS + sph.SHORT_READ_KINDS:
                 # every kind of binary file object (sub-check file_objects)
                 with sph.open_stream(access[4:], data, tmpdir) as f:
                     out = util.read_signal(f, dtype=dtype, force_as="sph")
@@ -160,6 +162,8 @@ def _acc_tags(access):
         with _Tmp() as tmp:
             with sph.open_stream(kind, b"x", tmp) as f:
                 _NAME_CLASS[kind] = sph.name_class(f)
+    if kind in sph.SHORT_READ_KINDS:
+        return dict(file_object=True, name_attr=_NAME_CLASS[kind], pipe=False, short_reads=True)
     return dict(file_object=True, name_attr=_NAME_CLASS[kind], pipe=(kind == "pipe"))
 
 
@@ -718,6 +722,62 @@ def _file_objects(pt, seed):
                                          "data section cut at 4 lengths} + 6 header faults"))
 
 
+# ------------------------------------------------------------------ raw streams that return short reads
+#
+# A raw (unbuffered) stream may return fewer bytes than requested before its end (io.RawIOBase: sockets, pipes,
+# wrappers with a per-call cap); the END of a stream is the empty read.  A complete file delivered that way is a
+# well-formed file and decodes to its samples.  The reader under test asks for the 1024-byte block and for the
+# rest of the header in one read each and does not retry THOSE (no property covers the header of a raw stream):
+# the kinds "short_<cap>" cap every read at >= 1024 bytes and are used with 1024- / 1500-byte headers, the kinds
+# "short_after_header_*" deliver the header in full and cap every read of the data section (caps 1, 7, 1024, and
+# a cap that varies per call).
+
+SR_DTYPES = (None, "float32", "uint8")
+
+
+def _sr_counts(coding, ch, kind):
+    """sample counts: files longer than one 16 KiB read, on and next to multiples of the read size"""
+    fs = ch * sph.bytes_per_sample(coding)
+    q = READ // fs
+    if min(sph.short_read_caps(kind)) < 1024 and len(sph.short_read_caps(kind)) == 1:
+        return (q + 1, (2 * READ) // fs + 1)          # one Python-level read per 1 / 7 bytes: two files
+    return sorted({5, q - 1, q, q + 1, 2 * q - 1, 2 * q, 2 * q + 1, (2 * READ) // fs + 1, 3 * q + 3})
+
+
+def _short_reads(pt, seed):
+    kind, coding = pt
+    access = "obj:" + kind
+    viol, obs, evals, nontriv, skipped = [], set(), 0, 0, 0
+    cache = {}
+    with _Tmp() as tmp:
+        for ch in (1, 2, 3):
+            fs = ch * sph.bytes_per_sample(coding)
+            counts = _sr_counts(coding, ch, kind)
+            for count in counts:
+                for variant in FO_HEADERS:
+                    for dtype in SR_DTYPES:
+                        v, o = _lattice_case(dict(coding=coding, channels=ch, header=variant, count=count,
+                                                  dtype=dtype, access=access), seed, tmp, cache)
+                        if o == "skipped":
+                            skipped += 1
+                            continue
+                        evals += 1
+                        nontriv += int(count * fs > min(sph.short_read_caps(kind)))
+                        obs.add(("complete", o, dtype, _nreads(coding, ch, count)))
+                        if v is not None:
+                            viol.append(v)
+            count = counts[-1]
+            for nbytes in sorted(set((fs + 1, READ + 1, count * fs - 1, (count - 1) * fs))):
+                v, o = _trunc_case(dict(coding=coding, channels=ch, header="h1024", count=count,
+                                        data_bytes=nbytes, access=access, dtype=None), seed, tmp)
+                evals += 1
+                nontriv += 1
+                obs.add(("truncated", o))
+                viol += v
+    return core.result(viol, evals=evals, nontrivial_count=nontriv, skipped=skipped, obs=sorted(map(str, obs)),
+                       sample=dict(file_object=kind, coding=coding, caps=list(sph.short_read_caps(kind))))
+
+
 # ------------------------------------------------------------------ call histories, results held
 
 # Files of the history alphabet.  Several share the number of values (count x channels = 12), the
@@ -1126,5 +1186,23 @@ def subchecks(tier, seed):
             axes=dict(file_object=list(sph.STREAM_KINDS), coding=list(sph.CODINGS), channels=[1, 2, 3],
                       count=["5", "16384//frame + 2"], header=list(FO_HEADERS), dtype=list(FO_DTYPES),
                       faults=[dict(f) for f in FO_FAULTS]),
+            replay=lambda case: _replay(case, seed)),
+        core.SubCheck(
+            "short_reads", [(k, c) for k in sph.SHORT_READ_KINDS for c in sph.CODINGS],
+            lambda p: _short_reads(p, seed),
+            "read_signal(f, force_as='sph') through raw streams whose read(n) returns FEWER than n bytes before "
+            "the end of the stream (mc/refs/sphere.py short_read_stream, an io.RawIOBase; kinds %r: every read "
+            "capped at 1024 / 4096 / 5000 / 16383 bytes, or the header delivered in full and every read of the data "
+            "section capped at 1 / 7 / 1024 bytes / a cap that varies per call %r) x coding; inner loop channels "
+            "1..3 x sample counts {5, q-1..q+1, 2q-1..2q+1, floor(32768/frame)+1, 3q+3} with q = 16384 // frame "
+            "bytes (caps 1 and 7: q+1 and floor(32768/frame)+1) x {complete file: headers %r x dtype "
+            "{None,float32,uint8} (oracle of lattice); the longest file with its data section cut to one frame + "
+            "1, 16385, all but one frame, all but one byte (oracle of truncation)}; non-trivial = the data section "
+            "is longer than the smallest cap" % (list(sph.SHORT_READ_KINDS), list(sph.SHORT_READ_VARYING),
+                                                 list(FO_HEADERS)),
+            axes=dict(file_object=list(sph.SHORT_READ_KINDS), coding=list(sph.CODINGS), channels=[1, 2, 3],
+                      header=list(FO_HEADERS), dtype=list(SR_DTYPES), varying_caps=list(sph.SHORT_READ_VARYING),
+                      not_enumerated="short reads inside the header (the reader does not retry them; no property "
+                                     "covers it); OS-level sockets / pipes (their read sizes depend on timing)"),
             replay=lambda case: _replay(case, seed)),
     ]
